@@ -81,16 +81,18 @@ fn tmpl(t: &str, uses: &J, env: Option<&J>, ind: &str) -> String {
         _ => unreachable!(),
     }
 }
-fn render_items(items: &J, depth: usize, out: &mut String) {
-    let ind = "    ".repeat(depth);
+fn render_items(items: &J, depth: usize, out: &mut String) { render_items_ind(items, &"    ".repeat(depth), out) }
+/// `ind`: the indentation of this level; a loop's body is indented by the loop's own unit `w` (1 = a tab; default 4 spaces)
+fn render_items_ind(items: &J, ind: &str, out: &mut String) {
     for it in items.as_array().unwrap() {
         if it["k"] == "decl" {
-            out.push_str(&tmpl(it["t"].as_str().unwrap(), &it["uses"], None, &ind));
+            out.push_str(&tmpl(it["t"].as_str().unwrap(), &it["uses"], None, ind));
         } else {
             let r = &it["r"];
             let op = if r["incl"].as_bool().unwrap() { "..=" } else { ".." };
             out.push_str(&format!("{ind}for {} in {}{}{}:\n", it["v"].as_str().unwrap(), r["lo"], op, r["hi"]));
-            render_items(&it["body"], depth + 1, out);
+            let unit = match it["w"].as_u64() { None => "    ".to_string(), Some(1) => "\t".to_string(), Some(n) => " ".repeat(n as usize) };
+            render_items_ind(&it["body"], &format!("{ind}{unit}"), out);
         }
     }
 }
@@ -136,6 +138,7 @@ fn line_of(form: &str, i: usize) -> String {
         "at_ms" => format!("@250ms F {{ id: {id} }}"),
         "at_only" => "@2s".to_string(),
         "jsonl" => format!("{{\"event_type\": \"G\", \"id\": {id}}}"),
+        "at_jsonl" => format!("@1s {{\"event_type\": \"K\", \"data\": {{\"id\": {id}, \"s\": \"x\"}}}}"),
         "comment" => "# a comment".to_string(),
         "comment2" => "// a comment".to_string(),
         "blank" => "".to_string(),
